@@ -24,6 +24,7 @@ package c15
 // not depend on the order.
 
 import (
+	"bytes"
 	"errors"
 	"fmt"
 	"hash/fnv"
@@ -409,6 +410,83 @@ func genRelativeKeys(t *rapid.T, pool []uint32, min, max uint32, side int) (keys
 }
 
 // levelsCase is one generated history of flushes, level-0 compactions and reopens on one family.
+// heldSnapshot is a snapshot a reader keeps open while the history goes on ("a version" of the
+// statement is whatever a snapshot pins, not only the current one): what it returned when it was
+// taken is what it has to return until it is closed, whatever flushes, compactions, obsolete-file
+// passes and reader-cache clean-ups ran in between.
+type heldSnapshot struct {
+	snap    version.Snapshot
+	files   []*fileInfo // scan of the version at the time the snapshot was taken (copied bytes)
+	when    string
+	changes int // flush commits and compactions since it was taken
+	checks  int
+}
+
+// checkHeld reads the whole version through the held snapshot again and compares it with the scan
+// made when the snapshot was taken; then every key of it (and absent keys around) is looked up
+// through Snapshot.Load and Snapshot.FindReaders+Get.
+func checkHeld(t failer, what string, h *heldSnapshot, levels int, probeSeed uint64) (lookups int) {
+	now := scanVersion(t, what, h.snap, levels)
+	if len(now) != len(h.files) {
+		t.Fatalf("%s: the snapshot listed %s when it was taken, now %s", what, describeFiles(h.files), describeFiles(now))
+	}
+	union := newTableModel()
+	all := keySet{}
+	for i, f := range h.files {
+		g := now[i]
+		if f.number != g.number || f.level != g.level || len(f.keys) != len(g.keys) {
+			t.Fatalf("%s: the snapshot listed %s when it was taken, now %s", what, describeFiles(h.files), describeFiles(now))
+		}
+		for j, k := range f.keys {
+			if g.keys[j] != k || !bytes.Equal(g.vals[k], f.vals[k]) {
+				t.Fatalf("%s: file %d read through the snapshot: entry %d was (%d, %s) when the snapshot was taken, now (%d, %s)",
+					what, f.number, j, k, short(f.vals[k]), g.keys[j], short(g.vals[g.keys[j]]))
+			}
+			all.add(uint64(k))
+		}
+	}
+	for _, k := range all.sorted() {
+		union.add(k, nil)
+	}
+	probes := append(append([]uint32{}, union.keys...), absentProbes(union, probeSeed)...)
+	for _, k := range probes {
+		var want [][]byte
+		for _, f := range h.files {
+			if v, ok := f.vals[k]; ok {
+				want = append(want, v)
+			}
+		}
+		lookups++
+		var loaded [][]byte
+		if err := h.snap.Load(k, func(v []byte) error { loaded = append(loaded, append([]byte(nil), v...)); return nil }); err != nil {
+			t.Fatalf("%s: snapshot.Load(%d) failed: %v (files of the snapshot: %s)", what, k, err, describeFiles(h.files))
+		}
+		if !sameValues(loaded, want) {
+			t.Fatalf("%s: snapshot.Load(%d) yields %s, the files of the snapshot hold %s", what, k, shortList(loaded), shortList(want))
+		}
+		readers, err := h.snap.FindReaders(k)
+		if err != nil {
+			t.Fatalf("%s: snapshot.FindReaders(%d) failed: %v (files of the snapshot: %s)", what, k, err, describeFiles(h.files))
+		}
+		var viaGet [][]byte
+		for _, r := range readers {
+			v, err := r.Get(k)
+			if errors.Is(err, table.ErrKeyNotExist) {
+				continue
+			}
+			if err != nil {
+				t.Fatalf("%s: reader %s Get(%d) failed: %v", what, r.FileName(), k, err)
+			}
+			viaGet = append(viaGet, append([]byte(nil), v...))
+		}
+		if !sameValues(viaGet, want) {
+			t.Fatalf("%s: FindReaders(%d)+Get yields %s, the files of the snapshot hold %s", what, k, shortList(viaGet), shortList(want))
+		}
+	}
+	h.checks++
+	return lookups
+}
+
 func levelsCase(t *rapid.T, group string) {
 	kvsim.Register()
 	pool := genKeys(t, "lvPool", rapid.SampledFrom([]int{12, 30, 60}).Draw(t, "lvPoolBudget"))
@@ -465,6 +543,85 @@ func levelsCase(t *rapid.T, group string) {
 	check := func(when string) {
 		lastFiles = checkLevels(t, when, family, storeOpt.Levels, model, probeSeed, st)
 		checked = true
+	}
+
+	// snapshots kept open over the following steps
+	var held []*heldSnapshot
+	heldTaken, heldChecks, heldMaxChanges, heldOutlived, heldAcrossCompaction := 0, 0, 0, 0, 0
+	defer func() { // before the store is closed, also on a failing case
+		for _, h := range held {
+			h.snap.Close()
+		}
+	}()
+	hold := func() {
+		h := &heldSnapshot{snap: family.GetSnapshot(), when: fmt.Sprintf("after %d flushes", flushes)}
+		held = append(held, h) // first: closed by the deferred function if the scan fails
+		h.files = scanVersion(t, "snapshot to be held, taken "+h.when, h.snap, storeOpt.Levels)
+		heldTaken++
+		canon.Write([]byte("H|"))
+		trace = append(trace, fmt.Sprintf("hold snapshot#%d of %s", heldTaken, describeFiles(h.files)))
+	}
+	verifyHeld := func(i int, closeIt bool) {
+		h := held[i]
+		// which of its files does the current version no longer list?
+		cur := family.GetSnapshot()
+		live := map[int64]bool{}
+		for _, fm := range cur.GetCurrent().GetAllFiles() {
+			live[fm.GetFileNumber().Int64()] = true
+		}
+		cur.Close()
+		gone := 0
+		for _, f := range h.files {
+			if !live[f.number] {
+				gone++
+			}
+		}
+		what := fmt.Sprintf("snapshot taken %s and still open after %d more commit(s)/compaction(s); %d of its %d file(s) are no longer part of the current version",
+			h.when, h.changes, gone, len(h.files))
+		st.lookups += checkHeld(t, what, h, storeOpt.Levels, probeSeed)
+		heldChecks++
+		if gone > 0 {
+			heldOutlived++
+		}
+		if h.changes > heldMaxChanges {
+			heldMaxChanges = h.changes
+		}
+		fmt.Fprintf(canon, "V%d/%v|", i, closeIt)
+		trace = append(trace, fmt.Sprintf("check held snapshot (%s, %d changes later, %d file(s) gone from the current version, close=%v)", h.when, h.changes, gone, closeIt))
+		if closeIt {
+			h.snap.Close()
+			held = append(held[:i], held[i+1:]...)
+		}
+	}
+	closeAllHeld := func() { // a store is only closed after its readers are done
+		for len(held) > 0 {
+			verifyHeld(0, true)
+		}
+	}
+	versionChanged := func(compaction bool) {
+		for _, h := range held {
+			h.changes++
+			if compaction {
+				heldAcrossCompaction++
+			}
+		}
+	}
+	// heldStep runs between two steps of the history
+	heldStep := func() {
+		switch a := rapid.IntRange(0, 9).Draw(t, "heldStep"); {
+		case a < 3:
+			if len(held) < 3 && flushes > 0 {
+				hold()
+			}
+		case a < 5:
+			if len(held) > 0 {
+				verifyHeld(rapid.IntRange(0, len(held)-1).Draw(t, "heldIdx"), false)
+			}
+		case a < 7:
+			if len(held) > 0 {
+				verifyHeld(rapid.IntRange(0, len(held)-1).Draw(t, "heldIdx"), true)
+			}
+		}
 	}
 
 	roundBands := bands     // the bands the flushes of the current round choose from
@@ -527,6 +684,7 @@ func levelsCase(t *rapid.T, group string) {
 		trace = append(trace, fmt.Sprintf("flush#%d %s %d keys [%d..%d]", flushes, shape, len(keys), keys[0], keys[len(keys)-1]))
 		flushes++
 		checked = false
+		versionChanged(false)
 	}
 
 	compact := func(force bool) {
@@ -566,6 +724,17 @@ func levelsCase(t *rapid.T, group string) {
 		if changed {
 			st.compactionsRan++
 			checked = false
+			versionChanged(true)
+		}
+		// the compaction job ends with an obsolete-file pass while it still pins the version it read;
+		// the periodic passes that follow are what removes its inputs - and must leave alone what an
+		// open snapshot pins
+		if rapid.IntRange(0, 2).Draw(t, "cleanupAfterCompact") > 0 {
+			kv.VerifDeleteObsoleteFiles(family)
+			if rapid.Bool().Draw(t, "cacheCleanup") {
+				kv.VerifCacheCleanup(store)
+			}
+			trace = append(trace, "obsolete-file pass")
 		}
 		if moved > 0 {
 			st.trivialMoves++
@@ -585,6 +754,7 @@ func levelsCase(t *rapid.T, group string) {
 	}
 
 	reopen := func() {
+		closeAllHeld()
 		if err := kv.GetStoreManager().CloseStore(storeName); err != nil {
 			t.Fatalf("CloseStore failed: %v", err)
 		}
@@ -678,6 +848,7 @@ func levelsCase(t *rapid.T, group string) {
 			for n := rapid.SampledFrom([]int{1, 2, 2, 2, 3, 3, 4}).Draw(t, "flushesInRound"); n > 0; n-- {
 				flush()
 				steps++
+				heldStep()
 			}
 			if !checked && rapid.IntRange(0, 4).Draw(t, "checkBeforeCompact") == 0 {
 				check(fmt.Sprintf("round %d before compaction", r+1))
@@ -693,6 +864,7 @@ func levelsCase(t *rapid.T, group string) {
 				compact(true)
 			}
 			steps++
+			heldStep()
 			if !checked && rapid.IntRange(0, 3).Draw(t, "checkAfterRound") > 0 {
 				check(fmt.Sprintf("after round %d", r+1))
 			}
@@ -718,10 +890,50 @@ func levelsCase(t *rapid.T, group string) {
 					check(fmt.Sprintf("after step %d", i+1))
 				}
 			}
+			heldStep()
 		}
 	}
+	closeAllHeld()
 	if !checked {
 		check(fmt.Sprintf("after all %d steps", steps))
+	}
+	// Nothing pins an older version any more (every snapshot of the case is closed, no flusher, no
+	// compaction, no rollup is under way): one obsolete-file pass has to leave exactly the table
+	// files of the current version in the family directory - "obsolete" files are deleted, files the
+	// version lists are not. (The other direction of what the held snapshots check above.)
+	kv.VerifDeleteObsoleteFiles(family)
+	{
+		cur := family.GetSnapshot()
+		want := map[string]bool{}
+		for _, fm := range cur.GetCurrent().GetAllFiles() {
+			want[version.Table(fm.GetFileNumber())] = true
+		}
+		cur.Close()
+		entries, err := os.ReadDir(filepath.Join(storeName, "f"))
+		if err != nil {
+			t.Fatalf("harness: reading the family directory: %v", err)
+		}
+		var extra, missing []string
+		for _, e := range entries {
+			if strings.HasSuffix(e.Name(), ".sst") {
+				if !want[e.Name()] {
+					extra = append(extra, e.Name())
+				}
+				delete(want, e.Name())
+			}
+		}
+		for n := range want {
+			missing = append(missing, n)
+		}
+		sort.Strings(missing)
+		if len(missing) > 0 {
+			t.Fatalf("after the history (%d snapshots were held and closed) an obsolete-file pass left the family directory without %v, which the current version %s lists\nhistory: %s",
+				heldTaken, missing, describeFiles(lastFiles), strings.Join(trace, "; "))
+		}
+		if len(extra) > 0 {
+			t.Fatalf("after the history (%d snapshots were held and closed; none is open) an obsolete-file pass leaves %v in the family directory; the current version lists only %s: some closed snapshot still pins an old version\nhistory: %s",
+				heldTaken, extra, describeFiles(lastFiles), strings.Join(trace, "; "))
+		}
 	}
 
 	nt := st.keyCoveredBy2Files > 0
@@ -745,6 +957,13 @@ func levelsCase(t *rapid.T, group string) {
 	add(st.keyInLevel0AndLevel1 > 0, "key-with-values-in-level0-and-level1")
 	add(st.keyCoveredBy2Files > 0, "stored-key-with->=2-candidate-files-one-above-level0")
 	add(st.reopens > 0, "reopen")
+	add(heldTaken > 0, "snapshot-held-over-later-steps")
+	add(heldAcrossCompaction > 0, "snapshot-held-across-a-compaction")
+	add(heldOutlived > 0, "held-snapshot-checked-after-its-files-left-the-current-version")
+	if heldTaken > 0 {
+		classes = append(classes, "held-snapshots"+bucket(heldTaken, 1, 2, 4), "held-snapshot-checks"+bucket(heldChecks, 1, 2, 4, 8),
+			"commits/compactions-a-held-snapshot-survived(max)"+bucket(heldMaxChanges, 0, 1, 2, 4, 8))
+	}
 	ev.Case(group, fmt.Sprintf("levels/%016x", canon.Sum64()), nt, classes, map[string]any{
 		"history": "levels", "poolKeys": len(pool), "bands": len(bands), "compactThreshold": famOpt.CompactThreshold,
 		"maxFileSize": famOpt.MaxFileSize, "trace": trace, "finalFiles": describeFiles(lastFiles), "lookups": st.lookups,
